@@ -46,6 +46,7 @@ type Op struct {
 
 type HistCase struct {
 	MTU   int       `json:"mtu"`
+	Pad   int       `json:"pad,omitempty"` // link padding of injected packets: 46 = up to the Ethernet minimum, other k = k trailing bytes
 	Socks []SockCfg `json:"socks"`
 	Ops   []Op      `json:"ops"`
 }
@@ -572,6 +573,14 @@ func runHist(c HistCase) *evid.Failure {
 		return nil
 	}
 	h := &hist{w: newWorld(c.MTU)}
+	if c.Pad == 46 {
+		h.w.tap.PadMin = 46
+	} else if c.Pad > 0 {
+		h.w.tap.PadIn = c.Pad
+	}
+	if c.Pad > 0 {
+		evid.Label("hist:link-padding")
+	}
 	defer h.w.close()
 	for _, cfg := range c.Socks {
 		h.socks = append(h.socks, h.open(cfg))
@@ -715,6 +724,7 @@ func seq(n int) []int {
 
 func genHist(rt *rapid.T) HistCase {
 	c := HistCase{MTU: rapid.SampledFrom([]int{1500, 1500, 65535, 576}).Draw(rt, "mtu")}
+	c.Pad = rapid.SampledFrom([]int{0, 0, 0, 46, 46, 1, 7}).Draw(rt, "linkpad")
 	// Sockets and operations are drawn through SliceOfN so that rapid can
 	// drop whole elements when it shrinks; the closures keep a sketch of the
 	// socket states (rebuilt on every replay of the draw sequence) to aim
